@@ -218,6 +218,17 @@ func c10Run(rt *hookrt.Runtime, sc *c10Scenario, seed int64) {
 	mainStarted := false
 	var asyncWg sync.WaitGroup
 	hname := func(h int) string { return fmt.Sprintf("s%d-h%d", sc.ID, h) }
+	gate := make(chan struct{}) // slow messages stay inside their handler function until "release"
+	var gateOnce sync.Once
+	release := func() { gateOnce.Do(func() { close(gate) }) }
+	slowWait := func(msg *message.Message) {
+		if msg.Metadata.Get("slow") != "" {
+			select {
+			case <-gate:
+			case <-time.After(30 * time.Second):
+			}
+		}
+	}
 	probeN := 0
 
 	withWatchdog := func(what string, d time.Duration, f func()) bool {
@@ -244,6 +255,7 @@ func c10Run(rt *hookrt.Runtime, sc *c10Scenario, seed int64) {
 			if op.Pub < 0 {
 				hd = router.AddNoPublisherHandler(name, "topic-"+name, s, func(msg *message.Message) error {
 					rt.Stamp("api.processed", fmt.Sprint(h), "true", "-1")
+					slowWait(msg)
 					return nil
 				})
 			} else {
@@ -253,6 +265,7 @@ func c10Run(rt *hookrt.Runtime, sc *c10Scenario, seed int64) {
 					pubs[op.Pub] = p
 				}
 				hd = router.AddHandler(name, "topic-"+name, s, "out", p, func(msg *message.Message) ([]*message.Message, error) {
+					slowWait(msg)
 					out := message.NewMessage(msg.UUID+"-out", nil)
 					out.Metadata.Set("h", fmt.Sprint(h))
 					return []*message.Message{out}, nil
@@ -290,6 +303,7 @@ func c10Run(rt *hookrt.Runtime, sc *c10Scenario, seed int64) {
 		case "run2":
 			tid := newTid()
 			withWatchdog("second Run", c10ObsWait, func() {
+				defer c10Recover(rt, "Run")
 				rt.Stamp("api.run.call", fmt.Sprint(tid))
 				err := router.Run(context.Background())
 				rt.Stamp("api.run.ret", fmt.Sprint(tid), fmt.Sprint(err == nil))
@@ -424,6 +438,19 @@ func c10Run(rt *hookrt.Runtime, sc *c10Scenario, seed int64) {
 			if !taken || !settled {
 				rt.Stamp("api.probe_stuck", fmt.Sprint(op.H), fmt.Sprint(taken))
 			}
+		case "slow_probe":
+			// a message whose handler call lasts until "release": the driver only hands it over
+			if op.H >= len(subs) {
+				continue
+			}
+			probeN++
+			msg := message.NewMessage(fmt.Sprintf("probe-%d-%d", sc.ID, probeN), nil)
+			msg.Metadata.Set("slow", "1")
+			if !subs[op.H].emit(msg, c10ProbeWait) {
+				rt.Stamp("api.probe_stuck", fmt.Sprint(op.H), "false")
+			}
+		case "release":
+			release()
 		case "subend":
 			if op.H >= len(subs) {
 				continue
@@ -445,6 +472,7 @@ func c10Run(rt *hookrt.Runtime, sc *c10Scenario, seed int64) {
 		}
 	}
 	rt.Stamp("api.scenario.end")
+	release()
 	// ---- clean up (no verdicts from here on)
 	rt.ReleaseAll()
 	cancel()
@@ -550,6 +578,14 @@ func c10Forced() []*c10Scenario {
 		c10Park{Point: "router.life.hc.ctx", Nth: 1, Until: "api.mark.never", Timeout: 100})
 	// context cancelled on a router that has no handlers
 	add("cancel-empty-router", []c10Op{op("run"), op("wait_running"), op("cancel"), op("wait_run")})
+	// Stop X while Y is inside a slow handler call: X ends alone, a third handler Z keeps processing
+	add("stop-while-other-handler-is-slow", []c10Op{opAdd(0, true), opAdd(1, true), opAdd(-1, true), opAdd(-1, true), op("run"), op("wait_running"), opH("slow_probe", 1), opH("slow_probe", 3),
+		opH("stop", 0), opH("wait_stopped", 0), opH("probe", 2), opH("stop", 2), opH("wait_stopped", 2), op("release"), opH("probe", 1), opH("probe", 3),
+		opH("stop", 1), opH("stop", 3), opH("wait_stopped", 1), opH("wait_stopped", 3), op("wait_run"), op("poll_running")})
+	// second Run after Close / after the context was cancelled
+	add("second-run-after-close", []c10Op{opAdd(-1, true), op("run"), op("wait_running"), op("run2"), op("close"), op("wait_run"), op("run2"), op("poll_running"), op("run2")})
+	add("second-run-after-cancel", []c10Op{opAdd(0, true), op("run"), op("wait_running"), op("cancel"), op("wait_run"), op("run2"), op("run2")})
+	add("second-run-after-failed-run", []c10Op{{K: "add", Pub: -1, Hon: true, Fail: true}, op("run"), op("wait_run"), op("run2"), op("poll_running")})
 	// second Run
 	add("second-run", []c10Op{opAdd(-1, true), op("run"), op("wait_running"), op("run2"), opH("probe", 0), op("run2"), opH("stop", 0), opH("wait_stopped", 0), op("wait_run"), op("run2")})
 	// RunHandlers / Stop / Stopped before Run
@@ -698,6 +734,9 @@ func c10Random(rng *rand.Rand, id int) *c10Scenario {
 			}
 		case 10:
 			ops = append(ops, op("run2"))
+			if h := pick(func(h *hinfo) bool { return h.covered && !h.stopped }); h >= 0 && rng.Intn(2) == 0 {
+				ops = append(ops, opH("slow_probe", h))
+			}
 		case 11:
 			if h := pick(func(h *hinfo) bool { return h.covered && h.stopped }); h >= 0 {
 				ops = append(ops, opH("wait_stopped", h))
@@ -705,6 +744,7 @@ func c10Random(rng *rand.Rand, id int) *c10Scenario {
 		}
 	}
 	// ending
+	ops = append(ops, op("release"))
 	switch e := rng.Intn(6); {
 	case e <= 2 && len(hs) > 0: // stop every handler: the router closes itself
 		for i, h := range hs {
@@ -741,7 +781,7 @@ func c10Random(rng *rand.Rand, id int) *c10Scenario {
 	}
 	_ = cancelled
 	ops = append(ops, op("wait_run"), op("poll_running"))
-	if rng.Intn(3) == 0 {
+	if rng.Intn(2) == 0 {
 		ops = append(ops, op("run2"))
 	}
 	sc.Ops = ops
